@@ -199,7 +199,8 @@ def z_other(c_upper, iupac):
 class Ref:
     """Symbolic reference semantics for one (adapter, read) pair."""
 
-    def __init__(self, adapter_chars, read_chars, adapter_wildcards, read_wildcards, indels):
+    def __init__(self, adapter_chars, read_chars, adapter_wildcards, read_wildcards, indels, tag=""):
+        self.tag = tag
         # documented normalisation of the adapter: upper case, U->T, I->N (adapter is given upper-case)
         self.a = []
         for c in adapter_chars:
@@ -235,7 +236,7 @@ class Ref:
             e = z3.If(self.aw_eff, views(True), plain)
         e = z3.simplify(e)
         # name the atom so that the DP tables stay small
-        b = z3.Bool("refmatch_%d_%d" % (i, j))
+        b = z3.Bool("refmatch%s_%d_%d" % (self.tag, i, j))
         self._match[k] = b
         self.defs = getattr(self, "defs", [])
         self.defs.append(b == e)
@@ -259,13 +260,13 @@ class Ref:
                     dele = D[i - 1][j] + 1
                     ins = D[i][j - 1] + 1
                     mn = z3.If(sub <= dele, z3.If(sub <= ins, sub, ins), z3.If(dele <= ins, dele, ins))
-                    v = V.ivar("refD_%d_%d_%d_%d" % (a0, r0, i, j))
+                    v = V.ivar("refD%s_%d_%d_%d_%d" % (self.tag, a0, r0, i, j))
                     self.defs.append(v == mn)
                     D[i][j] = v
         else:
             D[0][0] = V.ival(0)
             for i in range(1, min(ma, nr) + 1):
-                v = V.ivar("refH_%d_%d_%d" % (a0, r0, i))
+                v = V.ivar("refH%s_%d_%d_%d" % (self.tag, a0, r0, i))
                 self.defs.append(v == D[i - 1][i - 1] + z3.If(self.match(a0 + i - 1, r0 + i - 1), V.ival(0), V.ival(1)))
                 D[i][i] = v
         self._tables[k] = D
